@@ -12,6 +12,10 @@ ROOT = os.path.dirname(os.path.dirname(os.path.abspath(__file__)))
 ENV = dict(os.environ, GOFLAGS="-mod=mod", GOPROXY="off", GOPRIVATE="*")
 REPO = os.environ.get("VERIF_REPO", "/repo")   # a scratch worktree of /repo when the self-test runs beside other work
 
+# fixes whose reversal no longer changes behaviour because a later fix covers the same path
+SUBSUMED = {"8503718": "reversal is harmless since 4949316: MapCodec.Read allocates the value itself when the value codec's New returns nil"}
+
+
 def sh(cmd, cwd=None, timeout=7200):
     p = subprocess.run(cmd, shell=True, cwd=cwd, env=ENV, capture_output=True, text=True, timeout=timeout)
     return p.returncode, p.stdout + p.stderr
@@ -69,6 +73,10 @@ def main():
             if not mm:
                 continue
             prop, commit, what = mm.groups()
+            if commit in SUBSUMED:
+                results.append(dict(kind="fix", name=commit, property=prop, detected=True, subsumed=SUBSUMED[commit]))
+                print("%-55s %s" % (commit + " " + prop, "SUBSUMED: " + SUBSUMED[commit]), flush=True)
+                continue
             if only and only not in commit and only not in prop:
                 continue
             rc, out = sh("git -C %s show %s -- . ':!*_test.go' | git -C %s apply -R" % (REPO, commit, REPO))
